@@ -29,3 +29,96 @@ Fixpoint valid_outs (dat acc : list N) (outs : list (list N * err)) : list strin
       tag_if (match e with EEOF => negb (list_eqb N.eqb acc' dat) | _ => false end) "viol:eof-before-complete" ++
       (if is_prefix acc' dat then valid_outs dat acc' more else [])
   end.
+
+(* ---- framing ------------------------------------------------------------- *)
+(* every response of the session is framed (Content-Length or chunked): a
+   connection that ends early surfaces as a read error, never as EOF *)
+Definition framed_ev (c : conn_ev) : bool := match c with CCloseDelim _ _ => false | _ => true end.
+Definition framed (cns : list conn_ev) : Prop := forallb framed_ev cns = true.
+
+(* every connection is answered, framed, by the session's server kind *)
+Definition all_serve (cns : list conn_ev) : Prop := Forall (fun c => c = CServe) cns.
+
+(* ---- completion (liveness) ----------------------------------------------- *)
+(* Which fault scripts the reader is expected to survive, said on the inputs
+   alone (lengths, buffer sizes, the script): an accounting of the body-read
+   events each Read call meets. [p] = bytes handed over before the call. *)
+
+(* the events a restarted (200) connection spends on discarding [left] bytes;
+   None = one of them fails (the reset fails and the Read with it, whatever
+   retries remain). An exhausted script is a healthy connection. *)
+Fixpoint skip_ok (left : nat) (evs : list rd_ev) : option (list rd_ev) :=
+  match left with
+  | O => Some evs
+  | _ =>
+    match evs with
+    | [] => Some []
+    | ev :: evs' =>
+      if rfail ev then None
+      else skip_ok (left - Nat.min (Nat.max 1 (rk ev)) (Nat.min discard_buf left)) evs'
+    end
+  end.
+
+(* re-connecting after a fault at progress [p] against a server of kind [k]
+   holding [len] bytes *)
+Definition reconnect_ok (len : nat) (k : skind) (p : nat) (evs : list rd_ev) : option (list rd_ev) :=
+  match p with
+  | O => Some evs                                  (* no Range header: the whole body again *)
+  | _ =>
+    match k with
+    | HonoursRange => if Nat.ltb p len then Some evs else None   (* bytes=len- is answered 416 *)
+    | IgnoresRange => skip_ok p evs
+    | RejectsRange => None
+    end
+  end.
+
+(* one Read(p) with len p = lenp: every failing body read must find a [true]
+   in the schedule and a successful re-connection; the first body read that does
+   not fail ends the call. Some (n, rest of the script) = the call hands over n bytes. *)
+Fixpoint call_ok (len : nat) (k : skind) (sched : list bool) (lenp p : nat) (evs : list rd_ev)
+  : option (nat * list rd_ev) :=
+  match sched with
+  | [] => None
+  | retry :: more =>
+    match evs with
+    | [] => Some (Nat.min lenp (len - p), [])
+    | ev :: evs' =>
+      if rfail ev then
+        if retry then
+          match reconnect_ok len k p evs' with
+          | Some evs'' => call_ok len k more lenp p evs''
+          | None => None
+          end
+        else None
+      else Some (Nat.min (Nat.max 1 (rk ev)) (Nat.min lenp (len - p)), evs')
+    end
+  end.
+
+Fixpoint tolerated (len : nat) (k : skind) (sched : list bool) (bufs : list nat) (p : nat) (evs : list rd_ev) : bool :=
+  match bufs with
+  | [] => true
+  | lenp :: more =>
+    match lenp with
+    | O => false
+    | _ =>
+      match call_ok len k sched lenp p evs with
+      | Some (n, evs') => tolerated len k sched more (p + n) evs'
+      | None => false
+      end
+    end
+  end.
+
+Definition is_fail (e : err) : bool := match e with EFail => true | _ => false end.
+Definition is_eof (e : err) : bool := match e with EEOF => true | _ => false end.
+
+(* the download completed: every byte handed over, end-of-file seen, no Read
+   ever reported an error *)
+Definition Complete (dat : list N) (outs : list (list N * err)) : Prop :=
+  delivered outs = dat /\
+  Forall (fun o => snd o <> EFail) outs /\
+  Exists (fun o => snd o = EEOF) outs.
+
+Definition complete_b (dat : list N) (outs : list (list N * err)) : bool :=
+  list_eqb N.eqb (delivered outs) dat &&
+  forallb (fun o => negb (is_fail (snd o))) outs &&
+  existsb (fun o => is_eof (snd o)) outs.
